@@ -221,13 +221,12 @@ Arguments ExecSyntaxError {Cls}.
 Arguments ExecOther {Cls} e.
 Inductive build_res (Cls : Type) : Type :=
 | Built (c : Cls) (code : string)          (* the class and its CODE attribute *)
-| BuildError                               (* some single-symbol definition failed with SyntaxError *)
-| BuildKeyError                            (* locals_['Model'] missing: nothing was ever executed successfully *)
+| BuildError (listed : bool)               (* BuildError chained from the SyntaxError; listed = some single-symbol definition
+                                              failed too and is named in the message (false: none reproduces it, 56579cc) *)
 | BuildRaise (e : exn)
 | BuildUnmodelled.
 Arguments Built {Cls} c code.
-Arguments BuildError {Cls}.
-Arguments BuildKeyError {Cls}.
+Arguments BuildError {Cls} listed.
 Arguments BuildRaise {Cls} e.
 Arguments BuildUnmodelled {Cls}.
 
@@ -237,19 +236,19 @@ Section BuildModel.
   Variable exec : string -> exec_res Cls.          (* CPython's exec of a class text in a namespace with BaseModel *)
 
   (* the fallback loop: for s in symbols_with_equations: exec(build_model_definition([s])) with the DEFAULT options,
-     converter and template; last = the class bound to locals_['Model'] so far *)
-  Fixpoint retry_each (syms : list symbol) (last : option Cls) (failed : bool) : option Cls * bool + exn :=
+     converter and template; a SyntaxError is recorded, anything else propagates *)
+  Fixpoint retry_each (syms : list symbol) (failed : bool) : bool + exn :=
     match syms with
-    | [] => inl (last, failed)
+    | [] => inl failed
     | s :: r =>
       match sequation s with
-      | None => retry_each r last failed
+      | None => retry_each r failed
       | Some _ =>
         match snd (build_def unit conv_default tt [s] default_opts true) with
         | POk text =>
           match exec text with
-          | ExecOk c => retry_each r (Some c) failed
-          | ExecSyntaxError => retry_each r last true
+          | ExecOk _ => retry_each r failed
+          | ExecSyntaxError => retry_each r true
           | ExecOther e => inr e
           end
         | PErr e => inr e
@@ -267,11 +266,9 @@ Section BuildModel.
       | ExecOk c => (st', Built c text)
       | ExecOther e => (st', BuildRaise e)
       | ExecSyntaxError =>
-        match retry_each syms None false with
+        match retry_each syms false with
         | inr e => (st', BuildRaise e)
-        | inl (_, true) => (st', BuildError)
-        | inl (Some c, false) => (st', Built c text)        (* the class of the LAST single symbol, CODE = the full text *)
-        | inl (None, false) => (st', BuildKeyError)
+        | inl listed => (st', BuildError listed)          (* in both sub-cases: no class is returned (56579cc) *)
         end
       end
     end.
